@@ -29,8 +29,11 @@ fn gen(t: &mut Tape, _tier: Tier) -> Scenario {
         }
     };
     let header_field = size_values(t);
-    let supplied = match t.below(9) {
+    let supplied = match t.below(10) {
         0 => None,
+        // the edges of the type: all-ones means "unknown" in a header field, but is an
+        // ordinary (unreachable) size when the caller supplies it
+        9 => Some([u64::MAX, u64::MAX - 1, 1 << 63, 1 << 32][t.below(4) as usize]),
         1 => Some(l.saturating_sub(1)),
         2 => Some(l + 1),
         3 => Some(0),
